@@ -193,6 +193,7 @@ def dss_sign_case(kd, mode, enc, hn, msg, tape, acc):
                                                  "" if tape is None else ", tape " + short(tape))
     digest = B.ref_digest(hn, msg)
     h = B.libhash(hn, msg)
+    acc.count("sign_calls")
     t = B.TapeBytes(tape) if mode == "fips" else None
     signer = DSS.new(libkey(kd), MODE[mode], enc, randfunc=t)
     try:
@@ -540,7 +541,6 @@ def worker(shards):
                     msg = msgs[mn]
                     tape = dict(fips_tapes(q, False))["k=mid"] if mode == "fips" else None
                     r0 = dss_sign_case(kd, mode, enc, hn, msg, tape, acc)
-                    acc.count("signatures")
                     acc.seen("sign_cfgs", (kd["name"], mode, enc, hn))
                     if r0 is None:
                         continue
@@ -560,7 +560,6 @@ def worker(shards):
             msg = msgs[mn]
             # the authentic signature is the library's own RFC 6979 output (compared with the reference on the way)
             r0 = dss_sign_case(kd, "det", enc, hn, msg, None, acc)
-            acc.count("signatures")
             if r0 is None:
                 continue
             _, r, s = r0
